@@ -164,7 +164,7 @@ fn rres<T>(r: rsactor::Result<T>, f: impl FnOnce(T) -> Rep) -> Res {
 
 /// Blocking tell/ask of an `MU` message through `r`; returns (result, elapsed).
 pub fn send_blocking(sh: &Shared, ctx: Ctx, actor: usize, r: &ActorRef<SA>, kind: BKind, body: Body) -> (Res, Duration) {
-    let d = |ms: u64| Some(Duration::from_millis(ms));
+    let d = |ms: u64| Some(if ms == u64::MAX { Duration::MAX } else { Duration::from_millis(ms) });
     let (ok, to) = match kind {
         BKind::Tell => (OpKind::BTell, 0),
         BKind::Ask => (OpKind::BAsk, 0),
@@ -188,11 +188,11 @@ pub fn send_blocking(sh: &Shared, ctx: Ctx, actor: usize, r: &ActorRef<SA>, kind
         BKind::DepAsk(ms) => rres(r.ask_blocking(MU(body), d(ms)), Rep::U),
         BKind::ErasedTell(to) => {
             let h: Box<dyn TellHandler<MU>> = r.into();
-            rres(h.blocking_tell(MU(body), to.map(Duration::from_millis)), |_| Rep::None)
+            rres(h.blocking_tell(MU(body), to.and_then(d)), |_| Rep::None)
         }
         BKind::ErasedAsk(to) => {
             let h: Box<dyn AskHandler<MU, u64>> = r.into();
-            rres(h.blocking_ask(MU(body), to.map(Duration::from_millis)), Rep::U)
+            rres(h.blocking_ask(MU(body), to.and_then(d)), Rep::U)
         }
     };
     let el = t.elapsed();
@@ -814,7 +814,7 @@ fn round_blocking(rt: &tokio::runtime::Runtime, seed: u64, hb: &Heartbeat, tot: 
         match th.join() {
             Ok((res, _)) => {
                 if !res.is_ok() {
-                    v.push(("C17.any_timeout_value".into(), format!("{kind:?} (Duration::from_millis(u64::MAX)) on a responsive actor returned {res:?}")));
+                    v.push(("C17.any_timeout_value".into(), format!("{kind:?} (Duration::MAX) on a responsive actor returned {res:?}")));
                 }
             }
             Err(_) => v.push(("C17.any_timeout_value".into(), format!("{kind:?} with a huge timeout panicked in the calling thread: {:?}", PANICS.lock().unwrap().last()))),
